@@ -15,27 +15,31 @@ from harness import core, tlc, tlaval
 # ------------------------------------------------------------------------------------------------
 # Events
 # ------------------------------------------------------------------------------------------------
-EV_CONST = dict(Callbacks={'f', 'g', 'r'}, Returning={'r'}, Prios={0, 1}, MaxId=3, MaxOps=5)
+EV_CONST = dict(Callbacks={'f', 'g', 'r', 'o'}, Returning={'r'}, OneShot={'o'}, Tags={0, 7}, Prios={0, 1}, MaxId=3, MaxOps=5)
 
 
 def ev_cfg(maxops, maxid=3, prios=(0, 1)):
     c = dict(EV_CONST)
     c.update(MaxOps=maxops, MaxId=maxid, Prios=set(prios))
-    return dict(spec='Spec', constants=c, invariants=['EmitOrder', 'LastEmitRight', 'UniqueIds'],
-                properties=['DisconnectExact', 'EmitKeeps'], view='AbsView')
+    return dict(spec='Spec', constants=c, invariants=['EmitOrder', 'UniqueIds'],
+                properties=['DisconnectExact', 'EmitKeeps', 'LastEmitRight', 'EmitCallsAll'], view='AbsView')
 
 
 def replay_events(ctx, hist, origin):
     from tenpy.tools.events import EventHandler
     calls = []
+    cur = {}
 
     def mk(name):
-        def cb():
-            calls.append(name)
+        own = {}
+
+        def cb(**kw):
+            calls.append([name, kw.get('tag', 0)])
+            if name == 'o':   # a one-shot listener: disconnects itself from the handler that is emitting
+                cur['h'].disconnect(own['id'])
             return name if name == 'r' else None
         cb.__name__ = name
-        return cb
-    cbs = {n: mk(n) for n in ('f', 'g', 'r')}
+        return cb, own
     H = {1: EventHandler()}
     for n, st in enumerate(hist):
         l, o = st['l'], st['o']
@@ -44,23 +48,31 @@ def replay_events(ctx, hist, origin):
         with warnings.catch_warnings(record=True) as w:
             warnings.simplefilter('always')
             if op == 'connect':
-                H[l['h']].connect(cbs[l['cb']], priority=l['prio'])
-                got = dict(id=H[l['h']].id_of_last_connected)
-                exp = dict(id=l['id'])
+                cb, own = mk(l['cb'])
+                kw = {'tag': l['kw']} if l['kw'] else None
+                if l['form'] == 'decorator':
+                    ret = H[l['h']].connect(priority=l['prio'], extra_kwargs=kw)(cb)
+                else:
+                    ret = H[l['h']].connect(cb, priority=l['prio'], extra_kwargs=kw)
+                own['id'] = H[l['h']].id_of_last_connected
+                got = dict(id=own['id'], returns_callback=ret is cb)
+                exp = dict(id=l['id'], returns_callback=True)
             elif op == 'disconnect':
                 H[l['h']].disconnect(l['id'])
                 got = dict(found=not any('No listener' in str(x.message) for x in w))
                 exp = dict(found=l['found'])
             elif op == 'emit':
                 del calls[:]
+                cur['h'] = H[l['h']]
                 res = H[l['h']].emit()
-                got = dict(calls=list(calls), nres=len(res))
-                exp = dict(calls=list(l['calls']), nres=len(l['calls']))
+                got = dict(calls=[list(c) for c in calls], nres=len(res))
+                exp = dict(calls=[list(c) for c in l['calls']], nres=len(l['calls']))
             elif op == 'emit_until_result':
                 del calls[:]
+                cur['h'] = H[l['h']]
                 res = H[l['h']].emit_until_result()
-                got = dict(calls=list(calls), result='None' if res is None else res)
-                exp = dict(calls=list(l['calls']), result=l['result'])
+                got = dict(calls=[list(c) for c in calls], result='None' if res is None else res)
+                exp = dict(calls=[list(c) for c in l['calls']], result=l['result'])
             elif op == 'copy':
                 H[2] = H[1].copy()
                 got = exp = {}
@@ -70,7 +82,7 @@ def replay_events(ctx, hist, origin):
         proj = {}
         for h in (1, 2):
             if h in H:
-                proj[h] = sorted([x.listener_id, x.callback.__name__, x.priority] for x in H[h].listeners)
+                proj[h] = sorted([x.listener_id, x.callback.__name__, x.priority, (x.extra_kwargs or {}).get('tag', 0)] for x in H[h].listeners)
             else:
                 proj[h] = []
         spec_conn = {h: sorted(list(x) for x in o['connected'][h - 1]) for h in (1, 2)}
@@ -230,7 +242,10 @@ def replay_dictcache(ctx, hist, kind, origin):
 def run_seq_part(ctx):
     quick = ctx.tier == 'quick'
     # ---- Events
-    res, dump, d = tlc.mc('Events', ev_cfg(4 if quick else 5), dump=True)
+    mcc = ev_cfg(4 if quick else 5)
+    if quick:
+        mcc['constants'] = dict(mcc['constants'], Callbacks={'f', 'r', 'o'})
+    res, dump, d = tlc.mc('Events', mcc, dump=True)
     ctx.add_mc('Events', res)
     if res.violated:
         ctx.violation(dict(kind='mc', spec='Events', invariant=res.violated[0]),
